@@ -87,6 +87,16 @@ CLAIMS = {
         "Enum(x) for undeclared x and .decode() of invalid text are outside the property's premise; windows are non-empty by "
         "C04 so events[0]/events[-1]/ktraces[0] are not tracked; non-constant indexes (bisect results) are C15's.",
         "DESIGN.md §4 C07"),
+    "C08": (
+        "pattern matching on the symbolic value of the reassembled text (header-word / slice-offset agreement), dispatcher vs "
+        "decoder None-path analysis for continuation records, lookup-ordinal ordering over all rendered path arguments",
+        "Decides three structural clauses: the START record contributes data[8 x header words:], continuation records their "
+        "whole data, left to right, NULs removed, ids from the START record; continuation records cannot avoid becoming traces "
+        "(reported as four known findings - genuine); in all 66 path-taking decoders the looked-up paths appear in lookup "
+        "order, the second path computed from the records not consumed by the first. Byte-exact text for each length is not "
+        "decided.",
+        "Chunk boundary arithmetic (24 + 32k) is the kernel's and is not modelled.",
+        "DESIGN.md §4 C08"),
     "C09": (
         "symbolic interpretation of handler + dataclass __str__ into output templates; per-position provenance of every hole",
         "Decided in full for the call part: for each of the ~400 BSC_/MSC_ registry keys the rendered text is derived as "
@@ -139,6 +149,25 @@ CLAIMS = {
         "Trusts filter() semantics and the interpreter; equality of filtered and unfiltered trace text is argued from "
         "C04/C05-style locality, not checked.",
         "DESIGN.md §4 C13"),
+    "C14": (
+        "template flattening of the line builders into column alternatives; identity/sharing analysis of the two tables "
+        "(constructor arguments, stores without copy, no rebinding anywhere); sentinel analysis of _format_process; frozen "
+        "who-may-write set",
+        "Decides column independence for all 2^6 configurations at once (each column is an alternative on exactly one switch "
+        "with an empty 'off' side, no other dependence on switches, fixed order), the one-pair-of-tables clause, the "
+        "unknown-thread clause and the writer set. That colouring leaves the text unchanged is not decided.",
+        "The reviewed writer set is frozen from the reviewed tree with one line of reason per writer.",
+        "DESIGN.md §4 C14"),
+    "C15": (
+        "effect and term matching on insert_image / feed_generator (same-index inserts, bisect form, guard, offset) and on the "
+        "sampler decoder's cs_frames term",
+        "Decides structural clauses: only insert_image writes the parallel lists, at one bisect index, after the duplicate "
+        "test; lookup is bisect_right - 1 guarded by >= 0 with identity and base read at the same index; frames are the chained "
+        "four words of all nested stack-data records truncated to the first header's count, gated on the flag and the header; "
+        "one callstack per qualifying trace stamped from the START record. Order independence follows from sortedness "
+        "(argued).",
+        "bisect semantics trusted.",
+        "DESIGN.md §4 C15"),
     "C16": (
         "symbolic unfolding of the constructor's keyword dictionary into (field, value, condition) stores; construct layout "
         "evaluated to bit positions; enum-kind check of byte registries",
@@ -178,6 +207,17 @@ CLAIMS = {
         "interpretation of handler bodies and __str__ methods.",
         "DESIGN.md §4 C17"),
 }
+
+CLAIMS["C20"] = (
+    "term matching on the symbolic value of the objects returned by the three composite decoders (gates, selections by "
+    "table name, sort key, END-word provenance)",
+    "Decides structural clauses for all windows: page-fault result/type from END words 2/3, pid/protection from the decode of "
+    "the first real-fault record among the inner records, taken only when present and decodable; launch image list = sorted by "
+    "load address over every nested image-map and shared-cache-map record; sampler thread info / user stack present exactly "
+    "when the flag is set and the record exists, None otherwise.",
+    "Behaviour under unrelated interleaved records beyond the selection predicates is not decided; the real-fault selection "
+    "is by literal id range (noted in DESIGN.md, not a violation of the statement).",
+    "DESIGN.md §4 C20")
 
 NOT_YET = "check under construction in this session (design in DESIGN.md §4); not claimed until the rule module exists"
 
